@@ -11,7 +11,7 @@ else
   git apply "$P" || { echo "apply failed"; exit 3; }
 fi
 for p in "$@"; do
-  out=$(cd /verif && VERIF_TIER=${TIER:-quick} ./check $p ${TIER:-quick} 2>&1); rc=$?
+  out=$(cd /verif && VERIF_TARGET_DIR=/verif/.target-mut VERIF_TIER=${TIER:-quick} ./check $p ${TIER:-quick} 2>&1); rc=$?
   nv=$(echo "$out" | grep -c "^VIOLATION")
   echo "[$p] exit=$rc violations=$nv $(echo "$out" | grep -E 'signature=' | head -3 | tr '\n' '|' | cut -c1-300)"
   if [ $rc -eq 2 ]; then echo "$out" | grep -E "INCONCLUSIVE|error" | head -5; fi
